@@ -102,7 +102,7 @@ theorem strip_kept {s s' : St} {l : Label} (hl : l.erased = false) (hs : step s 
     rw [step_of_w hx']
     have hp' : (strip s).ws[i]? = some p := hp
     have hn' : wNext (strip s).g a p (tsAt (strip s) i == .canceled) = some q := hn
-    have hg : (a = .lockT → (strip s).thd = .none) ∧ (a = .lock → (strip s).own = .none) := by
+    have hg : (a.locksT = true → (strip s).thd = .none) ∧ (a = .lock → (strip s).own = .none) := by
       refine ⟨fun ha => ?_, hgO⟩
       show (if s.thd = .s then Own.none else s.thd) = .none
       rw [hgT ha]; rfl
@@ -265,6 +265,8 @@ theorem strip_erased {s s' : St} {l : Label} (hm : MInv s) (hl : l.erased = true
         · by_cases hc : INTR < s.now - s.last <;> simp [hc, stripSpc]
         · simp [stripSpc]
         · simp [stripSpc]
+        · simp [stripSpc]
+        · simp [stripSpc]
         · by_cases hc : INTR < s.now - s.last <;> simp [hc, stripSpc]
       · simp at hd
     | lockT =>
@@ -275,6 +277,10 @@ theorem strip_erased {s s' : St} {l : Label} (hm : MInv s) (hl : l.erased = true
       split at hd
       · simp only [Option.some.injEq] at hd; subst hd
         rename_i hw
+        have ht : s.thd = .s := hm.thdS1 (by rw [hw]; rfl)
+        simp [strip, hw, ht, stripSpc]
+      · simp only [Option.some.injEq] at hd; subst hd
+        rename_i k hw
         have ht : s.thd = .s := hm.thdS1 (by rw [hw]; rfl)
         simp [strip, hw, ht, stripSpc]
       · split at hd <;> simp at hd; subst hd
